@@ -581,8 +581,8 @@ Module PullProgramsSanity.
     forall n, nth_error (nodes pp_N) (top pp_stages) = Some n -> sk (nms n) 0 = SLive ->
       pin (ntrace n) = dout (ntrace n).
   Proof.
-    apply (@program_answers pp_it pp_stages); [repeat constructor | exact pp_preach | |];
-      vm_compute; reflexivity.
+    destruct pp_at_rest as (H1 & H2 & _).
+    exact (@program_answers pp_it pp_stages ltac:(repeat constructor) pp_N pp_preach H1 H2).
   Qed.
 
   (** [disciplined] is needed for [program_answers]: a sink that sends TWO Pulls from inside one
